@@ -2,6 +2,7 @@ package main
 
 import (
 	"fmt"
+	"go/constant"
 	"go/token"
 	"go/types"
 	"sort"
@@ -704,3 +705,76 @@ func ruleScopeThreading(p *Program, r *Report) {
 }
 
 func init() { register("C18", Rule{"S18d", ruleScopeThreading}) }
+
+// S18e: the `safe` handle is made only of the safe library.  //std.safe is the documented way to hand "the safe
+// library" to an evaluator (`(stdlib: //std.safe +> …)`).  The tuple attribute named "safe" is built in one place;
+// that code must run only as part of SafeStdScopeTuple — if the function that builds it is also called while the
+// full library is assembled (StdScope), //std.safe as ordinary programs see it contains the unsafe functions.
+func ruleSafeHandleBuiltOnlyFromSafe(p *Program, r *Report) {
+	r.Begin("S18e", "the safe handle: every construction of a tuple attribute named \"safe\" in package syntax sits in SafeStdScopeTuple or in a function all of whose call sites are in SafeStdScopeTuple (transitively) — never on the path that assembles the full library", 1)
+	defer r.End()
+	safe := p.Func("syntax", "SafeStdScopeTuple")
+	if safe == nil {
+		r.Undecided("anchor", "syntax.SafeStdScopeTuple not found", 0)
+		return
+	}
+	p.CG()
+	n := 0
+	for _, fn := range p.RepoFns {
+		if PkgPathOf(fn) != Mod+"/syntax" {
+			continue
+		}
+		ForEachInstr(fn, func(ins ssa.Instruction) {
+			c, ok := ins.(*ssa.Call)
+			if !ok {
+				return
+			}
+			g := c.Call.StaticCallee()
+			if g == nil || !(g.Name() == "NewAttr" || g.Name() == "NewTupleAttr") || len(c.Call.Args) == 0 {
+				return
+			}
+			k, isK := c.Call.Args[0].(*ssa.Const)
+			if !isK || k.Value == nil || k.Value.Kind() != constant.String || constant.StringVal(k.Value) != "safe" {
+				return
+			}
+			n++
+			top := fn
+			for top.Parent() != nil {
+				top = top.Parent()
+			}
+			r.Fn(FnName(top))
+			// every caller chain of `top` must end in SafeStdScopeTuple
+			var onlyFromSafe func(f *ssa.Function, depth int, seen map[*ssa.Function]bool) (bool, string)
+			onlyFromSafe = func(f *ssa.Function, depth int, seen map[*ssa.Function]bool) (bool, string) {
+				if f == safe {
+					return true, ""
+				}
+				if depth > 4 || seen[f] {
+					return false, FnName(f)
+				}
+				seen[f] = true
+				node := p.cg.Nodes[f]
+				if node == nil || len(node.In) == 0 {
+					return false, FnName(f) + " (no caller in SafeStdScopeTuple)"
+				}
+				for _, e := range node.In {
+					caller := e.Caller.Func
+					for caller.Parent() != nil {
+						caller = caller.Parent()
+					}
+					if ok, who := onlyFromSafe(caller, depth+1, seen); !ok {
+						return false, who
+					}
+				}
+				return true, ""
+			}
+			ok2, who := onlyFromSafe(top, 0, map[*ssa.Function]bool{})
+			r.Check(ok2, fmt.Sprintf("safe-handle@%s", FnName(top)), "built only while assembling the safe library", fmt.Sprintf("%s builds the attribute `safe` and is also reached from %s: the tuple published as //std.safe on that path is not the safe library, so `(stdlib: //std.safe)` hands file and network functions to sandboxed source", FnName(top), who), c.Pos())
+		})
+	}
+	if n == 0 {
+		r.Undecided("sites", "no construction of a `safe` attribute found in package syntax", 0)
+	}
+}
+
+func init() { register("C18", Rule{"S18e", ruleSafeHandleBuiltOnlyFromSafe}) }
